@@ -34,6 +34,8 @@ type Engine struct {
 	mu       sync.Mutex
 	globals  map[string]*globalInfo
 	addrTaken map[string][]*ssa.Function
+	rawMod    map[*ssa.Function]*ModInfo
+	ignorePure bool
 	tables   map[string]*TableInfo
 	frozen   map[string]bool
 	usedC    map[string]map[string]bool
